@@ -1,6 +1,7 @@
 """C01  Optimisation never changes a verdict."""
 import json
 
+import covfam
 import lib
 from lib import D, rule_text
 from props import common, rulebase
@@ -62,6 +63,10 @@ def run(ck):
     for det, docs in forced:
         cases.append({"k": "rule", "id": ck.new_id(), "rule": rule_text(det), "docs": [D(d) for d in docs], "sw": ALL_SW,
                       "_det": det, "_docs": docs})
+    for fam, det, docs, extra in covfam.all_cases(skip=("loader_errors",) if not thorough else ()):
+        cases.append({"k": "rule", "id": ck.new_id(), "rule": rule_text(det, extra=extra), "docs": [D(d) for d in docs], "sw": ALL_SW,
+                      "_det": det, "_docs": docs})
+        ck.count("family:" + fam)
     wit = rulebase.witness_cases(ck, "C01")
     allc = cases + wit
     send = rulebase.wire(allc)
